@@ -284,7 +284,7 @@ theorem crawledResume_run (s : State) {m : Nat} {w : WeCur} {items : List QItem}
 
 /-! ### the atomic requests in terms of `weItems` -/
 
-theorem forPrefixes_cons (s : State) {α} (p : Bytes) (ps : List Bytes) (f : Nat → Bytes → List α) :
+theorem cd_forPrefixes_cons (s : State) {α} (p : Bytes) (ps : List Bytes) (f : Nat → Bytes → List α) :
     s.forPrefixes (p :: ps) f =
       match s.lruNode (lruIter p) with
       | none => .error .traph
@@ -297,7 +297,7 @@ theorem forPrefixes_cons (s : State) {α} (p : Bytes) (ps : List Bytes) (f : Nat
     · simp [hn, hall]
     · simp [hn, hall]
 
-theorem filter_map_flatMap {α β} (P : α → Bool) (g : α → β) (l : List α) :
+theorem cd_filter_map_flatMap {α β} (P : α → Bool) (g : α → β) (l : List α) :
     (l.filter P).map g = l.flatMap (fun x => if P x then [g x] else []) := by
   induction l with
   | nil => rfl
@@ -316,7 +316,7 @@ theorem forPrefixes_weItems (s : State) (d : Option Nat) {α} (h : QItem → Lis
   induction ps with
   | nil => simp [forPrefixes, weItems]
   | cons p ps ih =>
-    rw [forPrefixes_cons, ih]
+    rw [cd_forPrefixes_cons, ih]
     cases hn : s.lruNode (lruIter p) with
     | none => simp [weItems, hn]
     | some n =>
@@ -358,7 +358,7 @@ theorem crawled_drain (s : State) (ps : List Bytes) (hfin : WeFin s none ps) (N 
       (fun n p => (s.weDfs n p none).flatMap (fun bl =>
         (fun it : QItem => if it.2.2.flags.page then [(it.2.1, it.2.2.flags.crawled)] else []) (itemOf s bl))) := by
     funext n p
-    rw [filter_map_flatMap]
+    rw [cd_filter_map_flatMap]
     rfl
   rw [hF, forPrefixes_weItems s none
     (fun it : QItem => if it.2.2.flags.page then [(it.2.1, it.2.2.flags.crawled)] else []) ps]
@@ -445,7 +445,7 @@ theorem mostLinked_drain (s : State) (ps : List Bytes) (k : Nat) (d : Option Nat
       (fun n p => (s.weDfs n p d).flatMap (fun bl =>
         (fun it : QItem => if it.2.2.flags.page then [(it.2.1, s.indegreeEntries it.2.2.inn)] else []) (itemOf s bl))) := by
     funext n p
-    rw [filter_map_flatMap]
+    rw [cd_filter_map_flatMap]
     rfl
   rw [hF, forPrefixes_weItems s d
     (fun it : QItem => if it.2.2.flags.page then [(it.2.1, s.indegreeEntries it.2.2.inn)] else []) ps]
